@@ -120,6 +120,20 @@ func VerifUDPScanMethod(ctx context.Context, v *VerifOpts) *udp.ScanMethod {
 	return o.newUDPScanMethod(ctx)
 }
 
+// VerifUDPFiller / VerifICMPFiller build the packet filler from the parsed CLI state through the
+// commands' own option wiring (getUDPOptions / getICMPOptions).
+func VerifUDPFiller(v *VerifOpts) *udp.PacketFiller {
+	o := udpCmdOpts{ipPortScanCmdOpts: v.ipPortScan(), ipTTL: v.TTL, ipFlags: v.IPFlags, ipProtocol: v.IPProto,
+		ipTotalLen: v.IPLen, udpPayload: v.Payload}
+	return udp.NewPacketFiller(o.getUDPOptions()...)
+}
+
+func VerifICMPFiller(v *VerifOpts) *icmp.PacketFiller {
+	o := icmpCmdOpts{ipScanCmdOpts: v.ipScan(), ipTTL: v.TTL, ipFlags: v.IPFlags, ipProtocol: v.IPProto,
+		ipTotalLen: v.IPLen, icmpType: v.ICMPType, icmpCode: v.ICMPCode, icmpPayload: v.Payload}
+	return icmp.NewPacketFiller(o.getICMPOptions()...)
+}
+
 // VerifTCPScanMethod composes the method like `tcp --flags`; the per-subcommand arguments
 // (name, filler options, packet filter, flag printer) are supplied by the caller.
 func VerifTCPScanMethod(ctx context.Context, v *VerifOpts, scanName string, fillerOpts []tcp.PacketFillerOption,
